@@ -19,7 +19,9 @@ EXPR = IDS + LITS + BRACKETS + PUNCT + OPS + EXPR_KW + HOSTILE
 DECL_KW = ["int", "clock", "chan", "const", "typedef", "struct", "void", "bool", "urgent", "broadcast", "meta", "double",
            "scalar", "return", "if", "else", "for", "while", "do", "break", "continue", "switch", "case", "default", "assert",
            "import", "hybrid", "dynamic", "string"]
-DECL = IDS + ["f0", "T"] + LITS[:4] + BRACKETS + PUNCT + OPS[:10] + ["=", "++"] + ["forall", "sum"] + DECL_KW + HOSTILE + ["&"]
+# "lt" is a type name only inside the scopes some seeds open (function-local / block-local typedef): a look-ahead token that was
+# classified under one scope and is consumed under another (after error recovery closed the scope)
+DECL = IDS + ["f0", "T", "lt"] + LITS[:4] + BRACKETS + PUNCT + OPS[:10] + ["=", "++"] + ["forall", "sum"] + DECL_KW + HOSTILE + ["&"]
 SYSTEM = IDS[:4] + ["T", "P", "Q", "zz"] + ["0", "1"] + BRACKETS[:4] + [";", ",", "=", "<", ":"] + \
     ["system", "process", "progress", "gantt", "chan", "priority", "default", "int", "const", "IO", "{", "}"] + HOSTILE
 XTA = IDS[:5] + ["T", "A", "B", "zz"] + ["0", "1"] + BRACKETS + [";", ",", ":", "=", "<", "!", "?", "->", "-u->"] + \
@@ -86,7 +88,10 @@ def xml_slots():
                   ["void", "f0", "(", ")", "{", "for", "(", "q", ":", "int[0,1]", ")"], ["void", "f0", "(", ")", "{", "if", "(", "i", ")", "i", "++", ";", "else"],
                   ["typedef", "struct", "{"], ["int", "f0", "["], ["int", "f0", "=", "{"], ["int", "f0", "(", "int"], ["const", "int", "f0", "="],
                   ["struct", "{", "int", "f0", ";", "}"], ["int", "f0", ","], ["chan", "priority"], ["typedef"], ["int", "["],
-                  ["void", "f0", "(", ")", "{", "int", "f0", "=", "forall", "(", "q", ":", "int[0,1]", ")"]]
+                  ["void", "f0", "(", ")", "{", "int", "f0", "=", "forall", "(", "q", ":", "int[0,1]", ")"],
+                  ["void", "f0", "(", ")", "{", "typedef", "int[0,1]", "lt", ";", "int", "q", ";", "q", "=", "1", ";"],
+                  ["void", "f0", "(", ")", "{", "{", "typedef", "int[0,1]", "lt", ";", "}"],
+                  ["void", "f0", "(", ")", "{", "typedef", "struct", "{", "int", "g", ";", "}", "lt", ";", "lt", "q", ";", "for", "(", "q", ":", "lt", ")"]]
     S["declaration"] = (ta_doc(gdecl=GDECL + SLOT), DECL + ["int[0,1]"], decl_seeds)
     S["local-declaration"] = (ta_doc(ldecl="int l; clock lx; " + SLOT), DECL + ["int[0,1]"], decl_seeds[:8] + decl_seeds[11:16])
     S["parameter"] = (ta_doc(params=SLOT, system="system T2;"), DECL + ["int[0,1]", "&"],
